@@ -186,6 +186,9 @@ def _files_info(w: _W, members, layout):
         ef = [m["kind"] == "emptyfile" for m in members if m["kind"] in ("dir", "emptyfile")]
         if any(ef) or (layout.get("emptyfile_vec") == "always" and ef):
             _prop(w, 0x0F, encode_bits(ef))
+        if layout.get("anti_zero") and any(empty_stream):
+            # the writer says in so many words that none of its empty entries is an anti-item
+            _prop(w, 0x10, encode_bits([False] * sum(empty_stream)))
     if layout.get("dummy") is not None:
         _prop(w, 0x19, bytes(layout["dummy"]))
     if layout.get("names", True):
@@ -257,6 +260,15 @@ def build(members, layout=None, password=None, rng=None, token_hook=None, header
     # ---- header
     w = _W(nm)
     w.byte(0x01)
+    if layout.get("archive_props"):
+        # ArchiveProperties: records of (type, size, data), closed by End
+        w.byte(0x02)
+        _prop(w, 0x7E, b"made by the reference writer")
+        _prop(w, 0x19, bytes(3))
+        w.byte(0x00)
+    if not folders and layout.get("empty_streams_info"):
+        w.byte(0x04)
+        w.byte(0x00)
     if folders:
         w.byte(0x04)
         _streams_info(w, packpos, pack_sizes, pack_crcs, folders, substreams=layout.get("substreams", True),
